@@ -505,6 +505,8 @@ def layer_crawl(tape, r, tier):
                 # symbolic links in the listings, the same name more than once; --retr-symlinks=off makes wpull create them locally
                 d0 = sorted(p for p, v in ftp_tree.items() if isinstance(v, list))[0]
                 ftp_tree[d0] += [('ln0', 'symlink'), ('ln0', 'symlink'), ('ln1', 'symlink')]
+                if tape.chance(1, 2, 'crawl.ftp.symlinks.nul'):
+                    ftp_tree[d0].append(('ln\x00x', 'symlink'))
                 ftp_symlinks = True
                 r.probes['ftp_symlinks'] += 1
             r.probes['crawl_ftp'] += 1
@@ -539,7 +541,7 @@ def layer_crawl(tape, r, tier):
 
         def setup(h, server, net):
             if ftp_tree is not None:
-                ftpcrawl.FtpTreeServer(h, net, ftp_tree, mlsd=tape.chance(1, 2, 'crawl.ftp.mlsd') and not ftp_symlinks, faults=ftp_faults)
+                ftpcrawl.FtpTreeServer(h, net, ftp_tree, mlsd=tape.chance(1, 2, 'crawl.ftp.mlsd'), faults=ftp_faults)
             for res in hostile:
                 def beh(conn, entry, rs, res=res):
                     conn.send(res.wire)
